@@ -9,9 +9,10 @@ Appends one JSON line per mutant to mutation/results.jsonl: survived (all checks
 unjudged (exit 2) / invalid (does not compile or killed by the repository's tests)."""
 import argparse, json, os, random, re, subprocess, sys, time
 V = os.path.dirname(os.path.dirname(os.path.abspath(__file__)))
-WT = "/tmp/wtc-mut"
-ENV = dict(os.environ, VERIF_REPO=WT, VERIF_CACHE="/tmp/wtc-mut-cache", VERIF_EVIDENCE="/tmp/wtc-mut-evidence",
-           CARGO_NET_OFFLINE="true", CARGO_TARGET_DIR="/tmp/wtc-mut-target")
+SLOT = os.environ.get("SLOT", "")        # several campaigns side by side: SLOT=a tools/mutate.py ...
+WT = "/tmp/wtc-mut" + SLOT
+ENV = dict(os.environ, VERIF_REPO=WT, VERIF_CACHE=WT + "-cache", VERIF_EVIDENCE=WT + "-evidence",
+           CARGO_NET_OFFLINE="true", CARGO_TARGET_DIR=WT + "-target")
 
 OPS = [
     (r" == ", " != "), (r" != ", " == "), (r" < ", " <= "), (r" <= ", " < "), (r" > ", " >= "), (r" >= ", " > "),
@@ -62,7 +63,7 @@ def main():
     if not os.path.isdir(WT):
         subprocess.run(["git", "-C", "/repo", "worktree", "add", "-q", "--detach", WT, "HEAD"], check=True)
     sh(["git", "-C", WT, "checkout", "-q", "--detach", head]); sh(["git", "-C", WT, "checkout", "-q", "--", "."])
-    os.makedirs("/tmp/wtc-mut-evidence", exist_ok=True)
+    os.makedirs(WT + "-evidence", exist_ok=True)
     os.makedirs(os.path.join(V, "mutation"), exist_ok=True)
     out = open(os.path.join(V, "mutation", "results.jsonl"), "a")
     path = os.path.join(WT, a.file)
